@@ -77,12 +77,16 @@ type Case struct {
 	// for this long before the streams are written.
 	AgeMs int `json:"age_ms,omitempty"`
 	// TimeoutMs: the proxy's SetTimeout value (0 = 60 s, longer than any case).
-	TimeoutMs int    `json:"timeout_ms,omitempty"`
+	TimeoutMs int `json:"timeout_ms,omitempty"`
 	// DownHead: framing header fields the downstream proxy puts on its 200 although it must not
 	// (RFC 7231 4.3.6: a client ignores them): "te-chunked" or "content-length".
 	DownHead string `json:"down_head,omitempty"`
-	TwinSize  int    `json:"twin_size,omitempty"`
-	TwinSeed  uint64 `json:"twin_seed,omitempty"`
+	// PreludePauseMs: pause after each ordinary exchange before the CONNECT.
+	PreludePauseMs int `json:"prelude_pause_ms,omitempty"`
+	// DialTimeout (with Unreachable): the dial fails with a timeout-type error instead of a refusal.
+	DialTimeout bool   `json:"dial_timeout,omitempty"`
+	TwinSize    int    `json:"twin_size,omitempty"`
+	TwinSeed    uint64 `json:"twin_seed,omitempty"`
 }
 
 // runTwin drives the second tunnel and reports what it saw.
@@ -149,6 +153,12 @@ func runTwin(proxyAddr string, tl net.Listener, size int, seed uint64, T time.Du
 	}
 	return v
 }
+
+type dialTimeoutErr struct{}
+
+func (dialTimeoutErr) Error() string   { return "i/o timeout (harness)" }
+func (dialTimeoutErr) Timeout() bool   { return true }
+func (dialTimeoutErr) Temporary() bool { return true }
 
 // opaqueConn hides every optional method of the connection it wraps.
 type opaqueConn struct{ net.Conn }
@@ -418,6 +428,14 @@ func runOnce(c Case, T time.Duration) (v kit.Verdict) {
 		p.SetTimeout(time.Duration(c.TimeoutMs) * time.Millisecond)
 	}
 	p.SetDial(dialer.Dial)
+	if c.Unreachable && c.DialTimeout {
+		p.SetDial(func(network, addr string) (net.Conn, error) {
+			if strings.HasPrefix(addr, "target.test") {
+				return nil, &net.OpError{Op: "dial", Net: network, Err: dialTimeoutErr{}}
+			}
+			return dialer.Dial(network, addr)
+		})
+	}
 	if c.OpaqueDial {
 		p.SetDial(func(network, addr string) (net.Conn, error) {
 			conn, err := dialer.Dial(network, addr)
@@ -505,6 +523,7 @@ func runOnce(c Case, T time.Duration) (v kit.Verdict) {
 			return kit.Failf("C04/harness-prelude/"+sh+"/"+class, "ordinary exchange %d before the CONNECT: %v (body %q)", k, err, pbody)
 		}
 		conn.SetDeadline(time.Time{})
+		time.Sleep(time.Duration(c.PreludePauseMs) * time.Millisecond)
 	}
 	head := connectHead(c.Head)
 	conn.SetWriteDeadline(time.Now().Add(10 * time.Second))
@@ -797,6 +816,7 @@ func genCase(t *rapid.T) Case {
 	c.Shaped = rapid.IntRange(0, 3).Draw(t, "shaped") == 0
 	if c.Route == "direct" && rapid.IntRange(0, 9).Draw(t, "unreachable") == 0 {
 		c.Unreachable = true
+		c.DialTimeout = rapid.Bool().Draw(t, "dial_timeout")
 	}
 	c.Head = rapid.SampledFrom([]string{"", "", "", "close", "http10", "http10-keep-alive"}).Draw(t, "head")
 	if c.Route == "direct" && rapid.IntRange(0, 5).Draw(t, "opaque_dial") == 0 {
@@ -843,6 +863,9 @@ func classes(c Case) []string {
 	}
 	if c.Unreachable {
 		out = append(out, "unreachable")
+		if c.DialTimeout {
+			out = append(out, "unreachable-dial-times-out")
+		}
 	}
 	if c.Twin {
 		out = append(out, "concurrent-second-tunnel")
@@ -922,6 +945,11 @@ func TestOldTunnel(t *testing.T) {
 			})
 		}
 	}
+	// the same, on a client connection that has already served ordinary exchanges for a while
+	cases = append(cases, Case{
+		C2T: Stream{Size: 70000, Seed: 9, Writes: []int{4096}, Pause: []int{0}}, T2C: Stream{Size: 70000, Seed: 10, Writes: []int{4096}, Pause: []int{0}},
+		Early: "none", Closer: "client-half", Route: "direct", Prelude: 2, PreludePauseMs: 1000, AgeMs: 2500, TimeoutMs: 3000,
+	})
 	verdicts := make([]kit.Verdict, len(cases))
 	var wg sync.WaitGroup
 	for i := range cases {
